@@ -3,6 +3,8 @@ from iauth_common import *
 PROFILE = dict(p_reannounce=0.15, maxlen=80, maxcli=6)
 
 def run(chk):
+    _impl0, _ = build_impl()
+    _rt = start_realtime(_impl0) if _impl0 is not None else None
     r = standard_run(chk, PROFILE, 1000, 10000)
     if r is None: return
     drv, impl, scns, ms, ds = r
@@ -24,6 +26,7 @@ def run(chk):
     analyse(chk, drv, impl, bigs, ms2, ds2, project=lambda lines, n: n, judge=judge, monitor=monitor, what="bookkeeping (long history): ", nontrivial=lambda scn, d: tuple(s[1] for s in d.steps))
     if chk.tier == "thorough":
         real_timers(chk, impl)
+    if _rt is not None: finish_realtime(chk, _rt, 'request bookkeeping: ')
     chk.cov["rule"] = "the 'N in use' figure after every input line vs the number of live instances; clean exit (status 0, LeakSanitizer silent) at end of input; long histories with hundreds of ids, re-announcements and disconnects at every stage, with and without a configured timeout; distinct = distinct in-use sequences"
     chk.assumptions.append("release of memory and timers is observed by LeakSanitizer/ASan at exit, not proved")
 
